@@ -364,6 +364,16 @@ pub fn run(tier: &str) -> i32 {
             corpus.push((format!("entries|{}", p.key), p.src));
         }
     }
+    // sources whose embedded literal is sensitive to text normalisation (CRLF, CR, tabs, controls, non-ASCII,
+    // long multi-byte runs across pipe-read boundaries)
+    for (i, inp) in crate::c16::inputs(false).into_iter().enumerate() {
+        let n = inp.key.split('|').nth(1).map(|s| s.split('.').filter(|x| !x.is_empty()).count()).unwrap_or(0);
+        if inp.key.starts_with("long-run") || (inp.key.starts_with("block|") && (n <= 1 || (thorough && i % 5 == 0))) || inp.key == "block|000d.000a" {
+            if naga_check(&inp.src).is_ok() {
+                corpus.push((format!("text|{}", inp.key), inp.src));
+            }
+        }
+    }
     let cfgs = [Config { encase: true, ..Config::default() }, Config { bytemuck_vertex: true, bytemuck_host: true, encase: true, serde: true, repr: Repr::Glam, ..Config::default() }];
     let items: Vec<(usize, usize)> = (0..corpus.len()).flat_map(|i| (0..cfgs.len()).map(move |c| (i, c))).collect();
     let pairs = par_map(&items, |(i, c)| (generate(&corpus[*i].1, &cfgs[*c]), generate(&corpus[*i].1, &Config { rustfmt: true, ..cfgs[*c] })));
